@@ -298,6 +298,39 @@ func (vc *FuncVC) applyContract(st *State, reach Term, ins *ssa.Call, callee *ss
 		vc.oblige("S", "pre/"+site, reach, And(gs...), vc.propTags("C04"), ins.Pos(), strings.Join(srcs, " && "))
 		vc.assume(Implies(reach, And(gs...)))
 	}
+	// D: a pointer handed to the callee in an operand position must point at defined contents
+	if vc.defKeys != nil && vc.discovery == 0 {
+		for i := range common.Args {
+			pt, isPtr := ptypes[i].Underlying().(*types.Pointer)
+			if !isPtr || isOut(fc, pnames[i]) {
+				continue
+			}
+			if _, sc := scalarSort(pt.Elem()); sc {
+				continue
+			}
+			var g Term
+			if rs, restricted := readsOf(vc.Gen, envPre, fc); restricted[pnames[i]] {
+				var gs []Term
+				for _, lf := range vc.L.leaves(pt.Elem(), 0, "") {
+					a := Add(vars[pnames[i]].T, IntLit(lf.Off))
+					if vc.defKeys[lf.Key] && rs[lf.Key+"@"+a.S] {
+						gs = append(gs, vc.isDef(st, lf.Key, a))
+					}
+				}
+				g = And(gs...)
+			} else {
+				g = vc.allDef(st, vars[pnames[i]].T, pt.Elem())
+			}
+			if g.S == "true" {
+				continue
+			}
+			vc.oblige("D", fmt.Sprintf("defined/arg:%s:%s", site, pnames[i]), reach, g, vc.propTags("C05", "C06"), ins.Pos(), "the previous contents of a destination are not read: operand "+pnames[i]+" of "+name)
+		}
+	}
+	var defBefore *State
+	if vc.defKeys != nil {
+		defBefore = st.clone()
+	}
 	// effects
 	if !fc.HasAssigns {
 		vc.note("callee %s has no assigns clause: whole heap havocked", name)
@@ -354,6 +387,25 @@ func (vc *FuncVC) applyContract(st *State, reach Term, ins *ssa.Call, callee *ss
 			continue // clause about the callee's own locals: not part of its external contract
 		}
 		vc.assume(Implies(reach, envPost.boolean(en.E)))
+	}
+	if vc.defKeys != nil && fc.HasAssigns {
+		// what the callee lists in assigns has been written (when its outs condition holds)
+		cond := TTrue
+		if fc.OutsWhen != nil && !mentionsUnknown(vc.W, fc.OutsWhen.E, post) {
+			cond = vc.define("outs_when", envPost.boolean(fc.OutsWhen.E))
+		}
+		for _, ax := range fc.Assigns {
+			for _, lf := range vc.lvalue(envPre, ax) {
+				if !vc.defKeys[lf.Key] {
+					continue
+				}
+				if cond.S == "true" {
+					vc.markDef(st, lf.Key, lf.Idx, TTrue)
+				} else {
+					vc.markDef(st, lf.Key, lf.Idx, Or(vc.isDef(defBefore, lf.Key, lf.Idx), cond))
+				}
+			}
+		}
 	}
 	if vc.fc.Delegate == name && vc.discovery == 0 {
 		dc := &delegCall{reach: reach, res: res, after: st.clone(), pos: ins.Pos()}
@@ -478,6 +530,21 @@ func (vc *FuncVC) execReturn(st *State, reach Term, ins *ssa.Return) {
 		r := vars["ret"]
 		vc.oblige("F", fmt.Sprintf("fresh/ret%d", k), reach, Ge(r.T, vc.entry.cnt), vc.propTags("C06"), ins.Pos(), "result is freshly allocated")
 	}
+	if vc.defKeys != nil {
+		cond := TTrue
+		if vc.fc.OutsWhen != nil {
+			cond = env.boolean(vc.fc.OutsWhen.E)
+		}
+		for _, name := range vc.fc.Outs {
+			pv := vc.params[name]
+			goal := Implies(And(cond, Ne(pv.T, IntLit(0))), vc.allDef(st, pv.T, pv.Ty.Elem))
+			src := "every field of the destination " + name + " is written"
+			if vc.fc.OutsWhen != nil {
+				src += " when " + vc.fc.OutsWhen.Src
+			}
+			vc.oblige("D", fmt.Sprintf("written/%s/ret%d", name, k), reach, goal, vc.propTags("C05", "C06"), ins.Pos(), src)
+		}
+	}
 	if vc.fc.HasAssigns {
 		vc.frameChecks(st, reach, k, ins.Pos())
 	}
@@ -501,6 +568,9 @@ func (vc *FuncVC) frameChecks(st *State, reach Term, k int, pos token.Pos) {
 	}
 	sort.Strings(ks)
 	for _, key := range ks {
+		if strings.HasPrefix(key, "def.") {
+			continue // ghost
+		}
 		s := vc.keys[key]
 		final := st.heap[key]
 		init := vc.arr(vc.entry, key, s)
